@@ -14,6 +14,7 @@
 -/
 import JSV.Proofs.InfSound
 import JSV.Proofs.InfEmbSound
+import JSV.Proofs.EncEmbCons
 namespace JSV.C04
 open JSV Go EncJson Spec
 
@@ -123,6 +124,23 @@ theorem infer_models_flatten (opts : IOpts) (fuel : Nat) (T : GoTypeE) (st : Sto
   obtain ⟨id', hid, hm⟩ := inferFuelE_models opts hno fuel T [] st (some id) st' hdom h
   cases hid
   exact hm
+
+open EncJsonEmb in
+/-- **the spec with embedded fields is conservative over the spec without**: on a type without embedded fields
+    (`GoType.toE`) typing is the same; on `InDomain` (pairwise distinct JSON names, H_D14) `typeFields`, json.Marshal
+    and the strict decoder are the same; and `InDomainE` contains `InDomain` (for structs with pairwise distinct Go
+    field names) -/
+theorem encJsonEmb_conservative (T : GoType) :
+    (∀ v, HasTypeE T.toE v ↔ HasType T v) ∧
+    (InDomain T = true → (∀ v, encodeE T.toE v = encode T v) ∧ (∀ j, decodableE T.toE j = decodable T j)) ∧
+    (InDomain T = true → DistinctNames T = true → InDomainE T.toE = true) :=
+  ⟨hasTypeE_toE T, fun h => ⟨fun v => encodeE_toE T v h, fun j => decodableE_toE T j h⟩, inDomainE_toE T⟩
+
+open EncJsonEmb in
+/-- … `typeFields` of a struct without embedded fields: the non-omitted fields in declaration order -/
+theorem typeFields_conservative (fs : List (String × String × GoType)) (h : nodup (jsonNames fs) = true) :
+    fieldNames (fieldsToE fs) = jsonNames fs ∧ alwaysFieldNames (fieldsToE fs) = alwaysNames fs :=
+  ⟨fieldNames_toE fs h, alwaysFieldNames_toE fs h⟩
 
 /-! ### the hypotheses of `infer_soundE_partial` are satisfiable (labelled tests)
 
